@@ -334,6 +334,8 @@ Definition dispatch_c18 (tag : N) (a : LL) : LL :=
       b2n (negb accepted || mon_C18 c (cc_own cc) (cc_own_mac cc) true (n0 h 1, n0 h 2, n0 h 3, n0 h 4) bs
            || negb (valid_config_b c (cc_own cc) (cc_own_mac cc)));
       b2n (negb accepted || all2 (fun m os => opts_eqb os (expected_options c m)) (cc_probes cc) ols)]]
+  (* monitor C18, verdict only (the real binary started on the text form of the configuration): [started?] *)
+  | 1812 => [[b2n (Bool.eqb (negb (n0 (hd0 (cc_obs cc)) 0 =? 0)) (valid_config_b c (cc_own cc) (cc_own_mac cc)))]]
   (* monitor determinism: every construction of one configuration was observed alike *)
   | 1811 => [[b2n (match cc_obs cc with [] => true | x :: r => forallb (nlist_eqb x) r end)]]
   (* monitor C07 for one probe: observation = option list, OFFER payload, ACK payload *)
